@@ -42,6 +42,8 @@ struct Lvl {
     instances: Vec<CompInfo>,
     components: Vec<CompInfo>,
     uniq: usize,
+    /// number of core types declared at this level
+    core_types: u32,
 }
 
 pub struct GenComp<'x> {
@@ -366,7 +368,12 @@ impl<'x> GenComp<'x> {
                         };
                         let mut s = we::CoreTypeSection::new();
                         match k {
-                            0 => s.ty().core().subtype(&ft(&[we::ValType::I32], &[])),
+                            0 => {
+                                // shared (func (param i32)): the type thread.spawn_ref wants
+                                let mut spawn = ft(&[we::ValType::I32], &[]);
+                                spawn.composite_type.shared = true;
+                                s.ty().core().subtype(&spawn)
+                            }
                             1 => s.ty().core().rec(vec![ft(&[], &[we::ValType::F64]), ft(&[we::ValType::I32, we::ValType::I64], &[we::ValType::I32])]),
                             2 => s.ty().core().rec(vec![st.clone()]),
                             3 => {
@@ -383,6 +390,14 @@ impl<'x> GenComp<'x> {
                         }
                         c.section(&s);
                         self.classes.push(["core_type:func", "core_type:rec2", "core_type:rec1_struct", "core_type:rec3_then_func", "core_type:module"][k]);
+                        if k == 0 {
+                            let mut cs = we::CanonicalFunctionSection::new();
+                            cs.thread_spawn_ref(l.core_types);
+                            c.section(&cs);
+                            l.core_funcs.push(2);
+                            self.classes.push("builtin:thread_spawn_ref");
+                        }
+                        l.core_types += [1, 2, 1, 4, 1][k];
                         continue;
                     }
                     let (cf, kind) = *t.pick(&cand);
